@@ -27,7 +27,8 @@ finally:
     sh(f"git -C /repo worktree remove --force {wt}")
 checks = [c for c in checks if not c.startswith("--")]
 dst = V / "seeded" / sid; dst.mkdir(parents=True, exist_ok=True)
-for f in ("patch.diff", "demo.py"): shutil.copy(src / f, dst / f)
+for f in ("patch.diff", "demo.py"):
+    if (src / f).resolve() != (dst / f).resolve(): shutil.copy(src / f, dst / f)
 meta = json.load(open(src / "meta.json")) if (src / "meta.json").exists() else {}
 res = {}
 assert sh("git -C /repo status --porcelain").stdout.strip() == "", "repo dirty"
